@@ -24,7 +24,7 @@ use std::io::{self, Write};
 pub fn k6_write_lenenc_int() {
     let x: u64 = vk::any();
     let mut b = Buf::<16>::new();
-    let r = b.write_lenenc_int(x);
+    let r = noerr(b.write_lenenc_int(x));
     let mut spec = [0u8; 9];
     let n = spec_lenenc(x, &mut spec);
     vk_cover!(n == 3, "cover: 0xFC form");
@@ -54,7 +54,7 @@ pub fn k6_read_lenenc_int() {
     buf[n + 1] = extra[1];
     buf[n + 2] = extra[2];
     let mut inp = &buf[..];
-    let r = inp.read_lenenc_int();
+    let r = noerr(inp.read_lenenc_int());
     vk_cover!(n == 4, "cover: 0xFD form read");
     match r {
         Ok(v) => {
@@ -73,7 +73,7 @@ pub fn k6_write_lenenc_str() {
     vk::assume(n <= (1usize << 40));
     let data = lazy_bytes(n);
     let mut s = RecSink::new(data.as_ptr());
-    let r = s.write_lenenc_str(&data[..]);
+    let r = noerr(s.write_lenenc_str(&data[..]));
     vk_assert!(r.is_ok(), "[C06.lenenc.str] write_lenenc_str failed on a sink that accepts everything");
     vk_cover!(n > 65535, "cover: string longer than 65535 bytes");
     vk_cover!(n == 0, "cover: empty string");
